@@ -18,9 +18,9 @@ from ..refmodel import diff
 PROP = 'C20'
 
 MANIFEST = dict(
-    category='exploration', design_ref='DESIGN.md §3 C20',
+    category='exploration', design_ref='DESIGN.md §3 C20, §9.5',
     technique='exhaustive single-fault mutation of generated WN-LMF documents at every position, run through the real load/add/is_lmf/scan_lexicons, with a byte-exact unchanged-database oracle',
-    text='For minimal, maximal and extension documents of every LMF version, every position-wise single-fault mutant of the must-reject classes named by the property is fed to lmf.load and to wn.add (on a database that already holds a lexicon; the exact table dump must be unchanged and the library usable afterwards); every valid re-styling must load to the same resource; is_lmf is compared with the header stage of load on every header variant; scan_lexicons is compared with load on every styling and on lexicon attribute payloads (quotes, escapes, apostrophes, angle brackets). Exhaustive over the mutation alphabet x positions.',
+    text='For minimal, maximal and extension documents of every LMF version, every position-wise single-fault mutant of the must-reject classes named by the property is fed to lmf.load and to wn.add (on a database that already holds a lexicon; the exact table dump must be unchanged and the library usable afterwards); every valid re-styling must load to the same resource; is_lmf is compared with the header stage of load on every header variant; scan_lexicons is compared with load on every styling and on lexicon attribute payloads (quotes, escapes, apostrophes, angle brackets); block-boundary sweeps place a (single- or multi-line) lexicon start tag at every byte offset around power-of-two boundaries (4 KiB ... 1 MiB) and cut documents off at exact multiples of such sizes, so that buffered scanning or parsing cannot hide a lexicon or accept a truncated file. Exhaustive over the mutation alphabet x positions and over the stated offsets.',
     note='Wrong nesting of otherwise known elements and DTD validity beyond what the property lists are not checked. Header variants the property does not classify (BOM, lower-case encoding name) are only required to be treated consistently by is_lmf and load.',
 )
 
@@ -175,6 +175,8 @@ def check(case):
             return check_headers(case, d)
         if kind == 'scan':
             return check_scan(case, d)
+        if kind == 'boundary':
+            return check_boundary(case, d)
         raise ValueError(kind)
     finally:
         import shutil
@@ -324,6 +326,115 @@ def check_scan(case, d):
     return {'v': V, 'd': runner.digest(repr(sc))}
 
 
+def _lex_tag(lid, style):
+    attrs = [('id', lid), ('label', f'Lexicon {lid}'), ('language', 'en'), ('email', f'{lid}@example.org'),
+             ('license', 'https://example.org/l'), ('version', '1'), ('url', 'https://example.org/' + lid)]
+    if style == 'multi':      # one attribute per line, as lmf.dump writes it
+        return '  <Lexicon ' + '\n           '.join(f'{k}="{v}"' for k, v in attrs) + '>'
+    return '  <Lexicon ' + ' '.join(f'{k}="{v}"' for k, v in attrs) + '>'
+
+
+def _lex_body(lid, n=2):
+    return ''.join(f'    <LexicalEntry id="{lid}-e{i}"><Lemma writtenForm="w{i}" partOfSpeech="n"/>'
+                   f'<Sense id="{lid}-s{i}" synset="{lid}-ss{i}"/></LexicalEntry>\n'
+                   f'    <Synset id="{lid}-ss{i}" ili="" partOfSpeech="n"/>\n' for i in range(n))
+
+
+def _filler(nbytes, kind):
+    """exactly nbytes of valid filler placed inside a Lexicon element"""
+    if kind == 'comment' or nbytes < 80:
+        if nbytes < 8:
+            return ' ' * nbytes
+        return '<!--' + 'x' * (nbytes - 8) + '-->\n'
+    # many short lines (a block-wise reader cutting at newlines finds one close to every boundary)
+    line = '    <!-- padding padding padding padding padding padding -->\n'
+    k = nbytes // len(line)
+    rest = nbytes - k * len(line)
+    return line * k + (_filler(rest, 'comment') if rest >= 8 else ' ' * rest)
+
+
+def boundary_doc(B, d, style, fill):
+    """two-lexicon document whose second <Lexicon ...> start tag begins d bytes before offset B"""
+    head = '\n'.join(xmlw.header('1.3')) + f'\n<LexicalResource xmlns:dc="{xmlw.DC_URIS["1.3"]}">\n'
+    first = _lex_tag('ba', 'single') + '\n' + _lex_body('ba')
+    tail1 = '  </Lexicon>\n'
+    tag2 = _lex_tag('bb', style)
+    pad = B - d - len(head) - len(first) - len(tail1)
+    if pad < 0:
+        return None
+    text = head + first + _filler(pad, fill) + tail1
+    assert len(text) == B - d, (len(text), B - d)
+    text += tag2 + '\n' + _lex_body('bb') + _filler(6000, fill) + '  </Lexicon>\n</LexicalResource>\n'
+    return text
+
+
+def check_boundary(case, d_):
+    """scan_lexicons / load / add on files whose lexicon start tags straddle power-of-two offsets,
+    and on files cut off exactly at a multiple of a power of two"""
+    V, digs, n = [], set(), 0
+    B = case['B']
+    if case['mode'] == 'straddle':
+        want = [{'id': 'ba', 'version': '1', 'label': 'Lexicon ba', 'extends': None},
+                {'id': 'bb', 'version': '1', 'label': 'Lexicon bb', 'extends': None}]
+        for d in case['ds']:
+            text = boundary_doc(B, d, case['style'], case['fill'])
+            if text is None:
+                continue
+            n += 1
+            f = env.write_file('b.xml', text.encode('ascii'), d_)
+            one = dict(case, ds=[d])
+            try:
+                sc = lmf.scan_lexicons(f)
+            except Exception as exc:      # noqa: BLE001
+                sc = f'{type(exc).__name__}: {exc}'
+            if sc != want:
+                V.append(('scan:differs:block-boundary', f'second <Lexicon> tag starts {d} bytes before offset {B} '
+                          f'({case["style"]}-line tag, {case["fill"]} filler): scan_lexicons = {sc}', None, one))
+            ok, L = runner.guarded(lmf.load, f, progress_handler=None)
+            if not ok or [x['id'] for x in L['lexicons']] != ['ba', 'bb']:
+                V.append(('load:differs:block-boundary', f'offset {B}-{d}: load -> {L if not ok else [x["id"] for x in L["lexicons"]]}', None, one))
+            env.fresh_db()
+            ok, err = runner.guarded(env.add, f)
+            specs = sorted(x.specifier() for x in wn.lexicons()) if ok else None
+            if not ok or specs != ['ba:1', 'bb:1']:
+                V.append(('add:valid-file-not-installed:block-boundary', f'offset {B}-{d}: add -> {err if not ok else specs}', None, one))
+            env.drop_db(env.db_path().parent)
+            digs.add(f'{sc == want}')
+    else:
+        # truncation exactly at m * B bytes: the document simply stops
+        head = '\n'.join(xmlw.header('1.3')) + f'\n<LexicalResource xmlns:dc="{xmlw.DC_URIS["1.3"]}">\n'
+        for m in case['ms']:
+            S = m * B
+            for fill in ('comment', 'lines', 'synsets'):
+                body = _lex_tag('bt', 'single') + '\n' + _lex_body('bt', 3)
+                if fill == 'synsets':
+                    filler = ''.join(f'    <Synset id="bt-x{i}" ili="" partOfSpeech="n"/>\n' for i in range((S // 40) + 200))
+                else:
+                    filler = _filler(S + 4096, 'comment' if fill == 'comment' else 'lines')
+                text = (head + body + filler + '  </Lexicon>\n</LexicalResource>\n')[:S]
+                n += 1
+                f = env.write_file('t.xml', text.encode('ascii'), d_)
+                one = dict(case, ms=[m])
+                try:
+                    lmf.load(f, progress_handler=None)
+                    V.append(('load:accepts:truncated-at-block-multiple', f'load() accepted a document cut off at {S} = {m}*{B} bytes '
+                              f'({fill} filler)', None, one))
+                except Exception as exc:     # noqa: BLE001
+                    digs.add(type(exc).__name__)
+                env.fresh_db()
+                try:
+                    env.add(f)
+                    raised = False
+                except Exception:            # noqa: BLE001
+                    raised = True
+                specs = [x.specifier() for x in wn.lexicons()]
+                if not raised or specs:
+                    V.append(('add:accepts:truncated-at-block-multiple', f'add() of a document cut off at {S} bytes ({fill} filler): '
+                              f'raised={raised} installed={specs}', None, one))
+                env.drop_db(env.db_path().parent)
+    return {'v': V, 'digs': digs, 'nt': len(digs) or 1, 'n': n}
+
+
 LEX_PAYLOADS = {
     'label': ['A &amp; B', 'A & B', "Bob's", 'a > b', 'a < b', 'say "hi"', 'café', ' pad ', 'a=b id="x"',
               "it's \"both\"", 'tab\there'],
@@ -370,9 +481,22 @@ def space(tier, seed):
                         continue
                     cases.append({'c': 'scan', 'doc': multi, 'style': st, 'add': True,
                                   'set': [[0, fld, p]]})
-    for p in LEX_PAYLOADS['version']:
-        # extension whose base version carries the payload: Extends must be scanned right
-        pass
+    # block-boundary sweeps: the pre-scan and the parser must not depend on where a buffer boundary falls
+    taglen = len(_lex_tag('bb', 'multi')) + 2
+    if tier == 'thorough':
+        Bs, step = [4096, 8192, 16384, 32768, 65536, 131072, 1048576], 1
+    else:
+        Bs, step = [65536, 1048576, [4096, 8192, 16384, 32768, 131072][seed % 5]], 3
+    for B in Bs:
+        for style in ('multi', 'single'):
+            for fill in ('comment', 'lines'):
+                ds = list(range(0, taglen, step if B != 65536 or tier == 'thorough' else 1))
+                if tier == 'quick' and B == 1048576:
+                    ds = ds[::3]
+                for i in range(0, len(ds), 24):
+                    cases.append({'c': 'boundary', 'mode': 'straddle', 'B': B, 'style': style, 'fill': fill, 'ds': ds[i:i + 24]})
+    for B in ([4096, 8192, 16384, 32768, 65536, 131072] if tier == 'thorough' else [65536, [4096, 8192, 16384, 32768, 131072][seed % 5]]):
+        cases.append({'c': 'boundary', 'mode': 'truncate', 'B': B, 'ms': [1, 2, 3]})
     return cases
 
 
